@@ -662,6 +662,50 @@ RAW = [{"id": "scoped", "source": RAW_SCOPED, "start": "Doc", "names": ["Doc", "
         "feats": ["raw"]}]
 
 
+# user-written LIST refinements (a documented extension point; GengyList is a list): the list is built while its elements
+# are generated, or trimmed afterwards, so its contents are not the object its constructor was given
+RAW_INCR = HEADER + '''
+from geneticengine.grammar.metahandlers.base import MetaHandlerGenerator
+from geneticengine.solutions.tree import GengyList
+
+class Incremental(MetaHandlerGenerator):
+    def generate(self, random, grammar, base_type, rec, dependent_values):
+        inner = base_type.__args__[0]
+        out = GengyList(inner, [])
+        for _ in range(random.randint(1, 3)):
+            out.append(rec(inner))
+        return out
+    def validate(self, v) -> bool:
+        return True
+
+class Trimmed(MetaHandlerGenerator):
+    def generate(self, random, grammar, base_type, rec, dependent_values):
+        inner = base_type.__args__[0]
+        out = GengyList(inner, [rec(inner) for _ in range(3)])
+        del out[random.randint(1, 2):]
+        return out
+    def validate(self, v) -> bool:
+        return True
+
+class Expr(ABC):
+    pass
+
+@dataclass
+class Num(Expr):
+    v: Annotated[int, IntRange(0, 3)]
+
+@dataclass
+class Poly(Expr):
+    ts: Annotated[list[Expr], Incremental()]
+
+@dataclass
+class Cut(Expr):
+    ts: Annotated[list[Expr], Trimmed()]
+'''
+C11_EXTRA = [{"id": "incrlist", "source": RAW_INCR, "start": "Expr", "names": ["Expr", "Num", "Poly", "Cut"], "feats": ["raw"],
+              "reps": ["tree"]}]
+
+
 def build_raw(raw) -> Built:
     name = f"verifg_{next(_counter)}"
     mod = types.ModuleType(name)
